@@ -56,6 +56,22 @@ class DrawSource:
         return v
 
 
+class GlobalDrawSource:
+    """random.seed(seed) on the GLOBAL generator, then pass every random.random() call through to it,
+    only recording the values (C06: 'with the random generator seeded identically')."""
+
+    def __init__(self, seed):
+        random.seed(seed)
+        self._orig = random.random
+        self.rng = random.Random(("extra", seed).__repr__())
+        self.values = []
+
+    def __call__(self):
+        v = self._orig()
+        self.values.append(v)
+        return v
+
+
 class patched_random:
     def __init__(self, source):
         self.source = source
@@ -253,12 +269,13 @@ def build(scn, rec, sim_options=None):
     return sim
 
 
-def run_impl(scn, behaviour=None, sim_options=None, draw_seed=0, keep_logging=False):
+def run_impl(scn, behaviour=None, sim_options=None, draw_seed=0, keep_logging=False, global_random=False,
+             extra_steps=0):
     """Run the real simulator on the scenario. Returns a result dict in the driver's output format
     plus: table (list of rows), draws (bits of every value random.random handed out), crash."""
     rec = Recorder(scn, behaviour)
     prescribed = [bitsf(b) for b in scn["cfg"].get("draws", [])] if scn.get("prescribedDraws") else None
-    source = DrawSource(draw_seed, prescribed)
+    source = GlobalDrawSource(draw_seed) if global_random else DrawSource(draw_seed, prescribed)
     rets = []
     crash = None
     with patched_random(source):
@@ -270,8 +287,17 @@ def run_impl(scn, behaviour=None, sim_options=None, draw_seed=0, keep_logging=Fa
             if drive["mode"] == "start":
                 sim.start_simulation()
             else:
-                for _ in range(drive["n"]):
-                    rets.append(bool(sim.step_simulation()))
+                if drive.get("untilDone"):
+                    while True:
+                        r = bool(sim.step_simulation())
+                        rets.append(r)
+                        if not r or len(rets) > 500000:
+                            break
+                    for _ in range(extra_steps):
+                        rets.append(bool(sim.step_simulation()))
+                else:
+                    for _ in range(drive["n"]):
+                        rets.append(bool(sim.step_simulation()))
         except Exception as e:  # an exception escaping the simulator aborts the run
             crash = f"{type(e).__name__}: {e}"
         finally:
